@@ -3,6 +3,7 @@ import LLRP.Gen.Schema
 import LLRP.Gen.Consts
 import LLRP.Gen.Funcs
 import LLRP.Pinned.Schema
+import LLRP.Proofs.LayoutBlocks
 /-!
 # C02 — Encoded bytes follow the LLRP binary layout; every length field is exact
 
@@ -53,6 +54,166 @@ theorem tv_header (S : Schema) (fuel : Nat) (ty : String) (c : Container) (fs : 
   refine ⟨Layout.fields c.fields fs 0 ++ Layout.slots S fuel c.slots subs none, ?_⟩
   have : ¬ c.typeId ≥ 128 := by omega
   simp [Layout.param, hc, this]
+
+/-! ## the encoder is the layout -/
+
+/-- the regenerated table packs its sub-byte fields without overlap (`LLRP.Model.LayoutWF`): the one condition on the
+table under which `acc | byte(v) << shift` is the declared bit placement -/
+theorem layout_wf : layoutWF Gen.schema = true := by decide +kernel
+
+/-- **the bytes `MarshalBinary` writes are the declarative layout**, for every table whose bit fields do not overlap,
+every container and every well-formed value: field bytes (network order, two's complement, bit positions), slot
+order, choice groups, TV/TLV headers and every TLV length field (`getHeader`'s 16-bit sum = 4 + body length) -/
+theorem encode_eq_layout (S : Schema) (c : Container) (v : Val) (hS : layoutWF S = true)
+    (hc : c.layoutWF = true) (hv : fits S c v = true) : encode S c v = Layout.layout S c v := by
+  cases v with
+  | node fs subs =>
+    simp only [fits, Bool.and_eq_true] at hv
+    simp only [encode, Layout.layout]
+    rw [encFields_eq_layout c.fields fs 0 0 hc hv.1 (by simp),
+      (encSlots_layout S hS _ c.slots subs none none hv.2).1]
+
+/-- … in particular for the table the code is generated from -/
+theorem encode_eq_layout_gen (c : Container) (hc : c ∈ Gen.schema) (v : Val) (hv : fits Gen.schema c v = true) :
+    encode Gen.schema c v = Layout.layout Gen.schema c v :=
+  encode_eq_layout Gen.schema c v layout_wf (layoutWF_of_mem layout_wf hc) hv
+
+/-- the table condition is needed: with two overlapping bit fields `|` and the declared placement differ -/
+def overlapping : Container :=
+  { name := "X", typeId := 900, isMsg := true,
+    fields := [⟨"a", .scalar 1 4 0 true false false⟩, ⟨"b", .scalar 1 4 2 false false false⟩],
+    slots := [],
+    responseTo := none }
+example : fits [] overlapping (.node [.num 15, .num 15] []) = true ∧ overlapping.layoutWF = false ∧
+    encode [] overlapping (.node [.num 15, .num 15] []) = [252] ∧
+    Layout.layout [] overlapping (.node [.num 15, .num 15] []) = [44] := by decide +kernel
+
+/-- a nested message: ROAccessReport ⊃ TagReportData ⊃ {EPC96 (TV), AntennaID (TV), C1G2PC (TV, four packed bit
+fields), Custom (TLV with a rest field)} — non-vacuity of `fits` and of the theorems below -/
+def sampleTag : Val :=
+  .node [] ([[], [.node [.bytes (List.replicate 12 0xAB)] []], [], [], [], [.node [.num 3] []]] ++ List.replicate 7 [] ++
+    [[.node [.num 21, .num 1, .num 0, .num 1, .num 0x30] []]] ++ List.replicate 14 [] ++
+    [[.node [.num 9, .num 1, .bytes [1, 2, 3]] []]])
+def sampleReport : Val := .node [] [[sampleTag, sampleTag], [], []]
+
+example : fits Gen.schema Gen.m_ROAccessReport sampleReport = true := by decide +kernel
+example : Gen.m_ROAccessReport ∈ Gen.schema := by decide +kernel
+example : (encode Gen.schema Gen.m_ROAccessReport sampleReport).take 22 =
+    [0, 240, 0, 38, 0x8d, 0xAB, 0xAB, 0xAB, 0xAB, 0xAB, 0xAB, 0xAB, 0xAB, 0xAB, 0xAB, 0xAB, 0xAB, 0x81, 0, 3, 0x8c, 0xad] := by
+  decide +kernel
+
+/-! ## `paramHeader.sz` -/
+
+/-- **`paramHeader.sz` is the true length**: the size `getHeader` computes for a well-formed parameter (16-bit
+additions of 16-bit sub-sizes, every variable-length field sized in uint16) is exactly the number of bytes
+`EncodeParams`/`EncodeFields` write for it — so the TLV length field written from it is exact -/
+theorem implSize_exact (S : Schema) (hS : layoutWF S = true) (fuel : Nat) (ty : String) (v : Val)
+    (hv : fitsParam S fuel ty v = true) :
+    szParam S fuel ty v = (encParam S fuel ty v).length :=
+  (encParam_layout S hS fuel ty v hv).2
+
+/-- `getHeader`'s result always fits 16 bits (it is computed in uint16) … -/
+theorem implSize_lt (S : Schema) (fuel : Nat) (ty : String) (v : Val) : szParam S fuel ty v < 65536 := by
+  cases fuel with
+  | zero => simp [szParam]
+  | succ fuel =>
+    cases v with
+    | node fs subs =>
+      simp only [szParam]
+      split
+      · omega
+      · simp only [wrap16]; omega
+
+/-- … hence a well-formed parameter is always shorter than 2^16 bytes -/
+theorem fits_length_lt (S : Schema) (hS : layoutWF S = true) (fuel : Nat) (ty : String) (v : Val)
+    (hv : fitsParam S fuel ty v = true) : (encParam S fuel ty v).length < 65536 := by
+  rw [← implSize_exact S hS fuel ty v hv]; exact implSize_lt S fuel ty v
+
+/-- the weaker form that is all the encoder itself relies on: equality modulo 2^16 -/
+theorem implSize_mod (S : Schema) (hS : layoutWF S = true) (fuel : Nat) (ty : String) (v : Val)
+    (hv : fitsParam S fuel ty v = true) :
+    szParam S fuel ty v = (encParam S fuel ty v).length % 65536 := by
+  have := fits_length_lt S hS fuel ty v hv
+  rw [implSize_exact S hS fuel ty v hv]; omega
+
+/-- without the shape part of `fits` not even that holds: `getHeader` sizes a fixed array by the table, not by the
+slice it is given (EPC96 with an empty EPC: size 13, one byte written) -/
+example : szParam Gen.schema 3 "EPC96" (.node [.bytes []] []) = 13 ∧
+    (encParam Gen.schema 3 "EPC96" (.node [.bytes []] [])).length = 1 := by decide +kernel
+
+/-- values that a 16-bit size cannot describe are not `fits`: a Custom parameter with 70000 bytes of data would be
+written as 70012 bytes while `getHeader` declares 4476 (16-bit wrap of the data length) -/
+theorem oversized_rejected (b : Bytes) (hb : b.length = 70000) :
+    fitsParam Gen.schema 2 "Custom" (.node [.num 1, .num 2, .bytes b] []) = false ∧
+    szParam Gen.schema 2 "Custom" (.node [.num 1, .num 2, .bytes b] []) = 4476 ∧
+    (encParam Gen.schema 2 "Custom" (.node [.num 1, .num 2, .bytes b] [])).length = 70012 := by
+  have hc : Gen.schema.param? "Custom" = some Gen.p_Custom := by decide +kernel
+  simp [fitsParam, szParam, encParam, hc, Gen.p_Custom, fitsFields, FKind.fitsVal, fieldsSz, encFields,
+    szSlots, encSlots, Container.headerSize, Container.isTLV, wrap16, hb, length_putInt, put16]
+
+example : fitsParam Gen.schema 40 "TagReportData" sampleTag = true ∧
+    (encParam Gen.schema 40 "TagReportData" sampleTag).length = 38 := by decide +kernel
+
+/-! ## every length field, at every nesting level -/
+
+/-- **every TLV block inside the layout declares exactly its own length**, recursively: the layout of a message
+shorter than 2^16 bytes is its field bytes followed by complete parameter blocks (`LLRP.Block`: type code, for a TLV
+the 16-bit length equal to the block's byte count, body = field bytes ++ blocks of the container's slot types, each
+well-formed in turn) -/
+theorem tlv_lengths_exact (S : Schema) (c : Container) (v : Val) (h : (Layout.layout S c v).length < 65536) :
+    ∃ (fb : Bytes) (sb : List (String × Bytes)), Layout.layout S c v = fb ++ (sb.map (·.2)).flatten ∧
+      ∀ p ∈ sb, p.1 ∈ c.slots.map (·.ty) ∧ Block S p.1 p.2 := by
+  cases v with
+  | node fs subs =>
+    simp only [Layout.layout, List.length_append] at h ⊢
+    obtain ⟨sb, hsb, hall⟩ := slots_blocks S (3 * (Val.node fs subs).size + 3) c.slots subs none (by omega)
+    exact ⟨_, sb, by rw [hsb], hall⟩
+
+/-- the same for one parameter: what the layout writes for it is one well-formed block (or nothing, for an unknown
+type) -/
+theorem tlv_lengths_exact_param (S : Schema) (fuel : Nat) (ty : String) (v : Val)
+    (h : (Layout.param S fuel ty v).length < 65536) :
+    Layout.param S fuel ty v = [] ∨ Block S ty (Layout.param S fuel ty v) :=
+  param_blocks S fuel ty v h
+
+/-- and therefore the same for what the encoder writes -/
+theorem tlv_lengths_exact_encode (c : Container) (hc : c ∈ Gen.schema) (v : Val) (hv : fits Gen.schema c v = true)
+    (h : (encode Gen.schema c v).length < 65536) :
+    ∃ (fb : Bytes) (sb : List (String × Bytes)), encode Gen.schema c v = fb ++ (sb.map (·.2)).flatten ∧
+      ∀ p ∈ sb, p.1 ∈ c.slots.map (·.ty) ∧ Block Gen.schema p.1 p.2 := by
+  rw [encode_eq_layout_gen c hc v hv] at h ⊢
+  exact tlv_lengths_exact Gen.schema c v h
+
+/-- **for every well-formed value, whatever its total size**: the layout (= the encoding) of a `fits` value is its
+field bytes followed by complete well-formed blocks — every TLV at every nesting level declares exactly its length -/
+theorem tlv_lengths_exact_fits (S : Schema) (c : Container) (v : Val) (hS : layoutWF S = true)
+    (hv : fits S c v = true) :
+    ∃ (fb : Bytes) (sb : List (String × Bytes)), Layout.layout S c v = fb ++ (sb.map (·.2)).flatten ∧
+      ∀ p ∈ sb, p.1 ∈ c.slots.map (·.ty) ∧ Block S p.1 p.2 := by
+  cases v with
+  | node fs subs =>
+    simp only [fits, Bool.and_eq_true] at hv
+    simp only [Layout.layout]
+    obtain ⟨sb, hsb, hall⟩ := slots_blocks_fits S hS (3 * (Val.node fs subs).size + 3) c.slots subs none none hv.2
+    exact ⟨_, sb, by rw [hsb], hall⟩
+
+/-- a well-formed parameter is laid out (= encoded) as exactly one well-formed block -/
+theorem tlv_lengths_exact_fits_param (S : Schema) (hS : layoutWF S = true) (fuel : Nat) (ty : String) (v : Val)
+    (hv : fitsParam S fuel ty v = true) :
+    Block S ty (Layout.param S fuel ty v) ∧ Block S ty (encParam S fuel ty v) := by
+  have := param_block_fits S hS fuel ty v hv
+  exact ⟨this, by rw [(encParam_layout S hS fuel ty v hv).1]; exact this⟩
+
+example : (Layout.layout Gen.schema Gen.m_ROAccessReport sampleReport).length = 76 := by decide +kernel
+
+/-! ## decoding a conformant encoding -/
+
+/-- decoding the layout of a value yields the value it denotes — a corollary of the round-trip theorem
+(`LLRP.C01.decode_encode`, proved separately), taken here as a hypothesis -/
+theorem decode_layout_of_roundtrip (S : Schema) (c : Container) (v : Val) (hS : layoutWF S = true)
+    (hc : c.layoutWF = true) (hv : fits S c v = true) (hrt : decode S c (encode S c v) = some v) :
+    decode S c (Layout.layout S c v) = some v := by
+  rw [← encode_eq_layout S c v hS hc hv]; exact hrt
 
 example : Gen.schema.params.length = 123 ∧ Gen.schema.msgs.length = 46 := by decide +kernel
 
